@@ -209,7 +209,7 @@ def main():
     quick = a.tier == "quick"
     TIMEOUT = 20000 if quick else 120000
     run = Run("C18", a.tier, "translation_validation")
-    n = 240 if quick else 4000
+    n = 480 if quick else 6000
     kinds_ = ["plain", "spin", "denom", "ops", "coulomb", "lib", "plain", "lib"]
     base = seed() * 1000003 + 1800
     items = [(kinds_[k % len(kinds_)], base + k) for k in range(n)]
